@@ -194,6 +194,12 @@ def run(ctx):
             scaled['Qf'] = (X * np.array(fac)[:, None]).tolist()
             items.append((scaled, scheme, {}))
             meta.append(('scaled', 'order_close'))
+            if b % 2 == 0:
+                # the same small counts stored densely in half precision (every count is exact in it)
+                half = copy.deepcopy(raw)
+                half['cfg'].update(qdtype='float16', enc='dense')
+                items.append((half, scheme, {}))
+                meta.append(('scaled', 'order_close'))
             # (iii') the same raw counts, one cell made deep (each count fits 16 bits, the cell's total does not), stored as
             # float64 / uint16 / int32: the storage type of the counts does not matter
             Xd = X.copy()
